@@ -37,7 +37,7 @@ pub fn builds_for(id: &str, tier: Tier) -> Vec<&'static str> {
     let mut v = vec!["checked"];
     let pext_always = ["C01", "C05"];
     let pext_thorough = ["C02", "C03", "C04", "C12", "C16", "C20"];
-    let unchecked_always = ["C19", "C15"];
+    let unchecked_always = ["C19", "C15", "C06"];
     let unchecked_thorough = ["C17", "C18"];
     if pext_always.contains(&id) || (tier == Tier::Thorough && pext_thorough.contains(&id)) {
         v.push("checked-pext");
@@ -142,6 +142,7 @@ where
             st.count("cases-accepted", 1);
             match &case.start {
                 Start::Built(_) => st.class("start-constructed"),
+                Start::Edited(_) => st.class("start-edited-state"),
                 Start::Seed(_) => st.class("start-seed-fen"),
                 Start::Dfrc(..) => st.class("start-dfrc"),
             }
